@@ -149,6 +149,27 @@ func init() {
 		e.c09DetailDef(s, pat, "patRouter.ServeHTTP", "serveStmts")
 		e.c09DetailDef(s, pat, "patRouter.handleNotFound", "handleNotFoundStmts")
 		e.c09DetailDef(s, pat, "patRouter.methodsAllowed", "methodsAllowedStmts")
+		e.c09DetailDef(s, pat, "patRouter.SetNotFoundHandler", "setNotFoundStmts")
+		e.c09DetailDef(s, pat, "patRouter.SetNotAllowedHandler", "setNotAllowedStmts")
+		e.c09DetailDef(s, pat, "NewRouter", "newRouterStmts")
+		// path variables through the request context
+		const pv = "rest/pathvar/params.go"
+		e.c09DetailDef(s, pv, "Vars", "pathvarVarsStmts")
+		e.c09DetailDef(s, pv, "WithVars", "pathvarWithVarsStmts")
+		// rest.Server / engine wiring on the path of the property
+		const eng = "rest/engine.go"
+		const srv = "rest/server.go"
+		e.c09DetailDef(s, eng, "engine.addRoutes", "engineAddRoutesStmts")
+		e.c09DetailDef(s, eng, "engine.bindRoutes", "engineBindRoutesStmts")
+		e.c09DetailDef(s, eng, "engine.bindFeaturedRoutes", "engineBindFeaturedStmts")
+		e.c09DetailDef(s, eng, "engine.bindRoute", "engineBindRouteStmts")
+		e.c09DetailDef(s, eng, "engine.notFoundHandler", "engineNotFoundStmts")
+		e.c09DetailDef(s, srv, "NewServer", "newServerStmts")
+		e.c09DetailDef(s, srv, "Server.AddRoutes", "serverAddRoutesStmts")
+		e.c09DetailDef(s, srv, "Server.Routes", "serverRoutesStmts")
+		e.c09DetailDef(s, srv, "WithPrefix", "withPrefixStmts")
+		e.c09DetailDef(s, srv, "WithNotFoundHandler", "withNotFoundStmts")
+		e.c09DetailDef(s, srv, "WithNotAllowedHandler", "withNotAllowedStmts")
 		if fd := s.findFunc(pat, "validMethod"); fd != nil {
 			e.stringList("validMethodTests", "comparisons of `validMethod` in "+pat, c09Methods(s, fd))
 			e.c09DetailDef(s, pat, "validMethod", "validMethodStmts")
